@@ -123,3 +123,22 @@ func c08Run(f func()) (crashed bool) {
 	f()
 	return false
 }
+
+// VerifC08ConfinePrefixed: as VerifC08Confine, for keys that start with one of the
+// classic escape prefixes (plain and NUL-disguised parent references, absolute, current
+// directory) followed by a symbolic tail - long enough to name a sibling of the root that
+// shares the root's name as a string prefix (/r vs /rX).
+func VerifC08ConfinePrefixed() {
+	prefix := []string{"", "../", ".\x00./", "..\x00/", "./", "/", "a/../../", ".\x00.\x00/"}[zz.Choice("prefix", 8)]
+	key := prefix + c08Key("tail", zz.ParamInt("maxlen", 3), zz.ParamInt("ascii", 1) == 1)
+	base := zz.Param("base", "/r")
+	b := &LocalBackend{basePath: base, dirCache: map[string]bool{}}
+	p, err := b.validatePath(key)
+	if err == nil {
+		zz.Assert(c08Below(p, base), "storage key resolved to a path outside the backend root")
+		zz.Assert(!strings.Contains(p, "\x00"), "resolved path contains a NUL byte")
+		zz.Reach("accepted")
+	} else {
+		zz.Reach("rejected")
+	}
+}
